@@ -13,6 +13,10 @@ _RTL_SRC = os.path.join(REPO, 'tensorflow_lattice/python/rtl_layer.py')
 _PM_SRC = os.path.join(REPO, 'tensorflow_lattice/python/premade_lib.py')
 
 
+class OutOfRandomness(Exception):
+  """the code under analysis drew more random values than the harness supplies: a harness limit, not a finding"""
+
+
 class _Perms(object):
   """RNG stub: every shuffle applies the next supplied permutation; every choice consumes the next supplied integers."""
 
@@ -24,22 +28,36 @@ class _Perms(object):
     pass
 
   def shuffle(self, lst):
+    if not self.perms:
+      raise OutOfRandomness('more shuffles than supplied')
     p = self.perms.pop(0)
     cp = list(lst)
     for i in range(len(cp)):
       lst[i] = cp[p[i]]
 
+  def _int(self):
+    if not self.ints:
+      raise OutOfRandomness('more random draws than supplied')
+    return self.ints.pop(0)
+
+  def permutation(self, seq):
+    seq = list(range(seq)) if isinstance(seq, int) else list(seq)
+    out = []
+    while seq:
+      out.append(seq.pop(self._int() % len(seq)))
+    return out
+
   def choice(self, seq, size=None, replace=True):
     seq = list(seq)
     if size is None:
-      return seq[self.ints.pop(0) % len(seq)]
+      return seq[self._int() % len(seq)]
     if replace:
       raise NotImplementedError
     if size > len(seq):
       raise ValueError('Cannot take a larger sample than population when replace is False')
     out = []
     for _ in range(size):
-      out.append(seq.pop(self.ints.pop(0) % len(seq)))
+      out.append(seq.pop(self._int() % len(seq)))
     return out
 
 
@@ -51,6 +69,7 @@ def _np_stub():
       RandomState=lambda seed: _CUR[0],
       seed=lambda s: None,
       shuffle=lambda lst: _CUR[0].shuffle(lst),
+      permutation=lambda seq: _CUR[0].permutation(seq),
       choice=lambda seq, size=None, replace=True: _CUR[0].choice(seq, size=size, replace=replace))
   return types.SimpleNamespace(random=rnd)
 
@@ -273,7 +292,7 @@ def random_ok(lattices, names, num_lattices, rank):
 
 def check_random_3f_2x2(ints: List[int]) -> bool:
   """
-  pre: len(ints) == 4 and all(0 <= v < 6 for v in ints)
+  pre: len(ints) == 8 and all(0 <= v < 6 for v in ints)
   post: _
   """
   lat, names = run_random(3, 2, 2, ints)
@@ -282,7 +301,7 @@ def check_random_3f_2x2(ints: List[int]) -> bool:
 
 def check_random_4f_2x2(ints: List[int]) -> bool:
   """
-  pre: len(ints) == 4 and all(0 <= v < 12 for v in ints)
+  pre: len(ints) == 8 and all(0 <= v < 12 for v in ints)
   post: _
   """
   lat, names = run_random(4, 2, 2, ints)
@@ -291,7 +310,7 @@ def check_random_4f_2x2(ints: List[int]) -> bool:
 
 def check_random_3f_2x3(ints: List[int]) -> bool:
   """
-  pre: len(ints) == 6 and all(0 <= v < 6 for v in ints)
+  pre: len(ints) == 8 and all(0 <= v < 6 for v in ints)
   post: _
   """
   lat, names = run_random(3, 2, 3, ints)
@@ -300,7 +319,7 @@ def check_random_3f_2x3(ints: List[int]) -> bool:
 
 def check_random_4f_3x2(ints: List[int]) -> bool:
   """
-  pre: len(ints) == 6 and all(0 <= v < 12 for v in ints)
+  pre: len(ints) == 8 and all(0 <= v < 12 for v in ints)
   post: _
   """
   lat, names = run_random(4, 3, 2, ints)
@@ -367,7 +386,7 @@ def twin_rtl_reachable(p1: List[int], p2: List[int]) -> bool:
 
 def twin_random_reachable(ints: List[int]) -> bool:
   """
-  pre: len(ints) == 4 and all(0 <= v < 6 for v in ints)
+  pre: len(ints) == 8 and all(0 <= v < 6 for v in ints)
   post: _
   """
   run_random(3, 2, 2, ints)
